@@ -81,8 +81,10 @@ func newPmat(name string, r, c, ld, pre, post int, trimCap bool) *pmat {
 	if ld < max(1, c) {
 		ld = max(1, c)
 	}
+	// An r x 0 operand still spans (r-1)*ld positions: several routines check
+	// len(b) >= (n-1)*ldb+nrhs before looking at nrhs.
 	need := 0
-	if r > 0 && c > 0 {
+	if r > 0 {
 		need = (r-1)*ld + c
 	}
 	tagCounter++
@@ -100,7 +102,7 @@ func padFrom(r *vk.SplitMix) (pre, post int, trim bool) {
 }
 
 func (p *pmat) need() int {
-	if p.r > 0 && p.c > 0 {
+	if p.r > 0 {
 		return (p.r-1)*p.ld + p.c
 	}
 	return 0
